@@ -109,13 +109,14 @@ Ltac leaf_restore :=
 Ltac leaf_value :=
   cbv beta iota delta [post_value answered eval_event eval_locals fst snd];
   repeat match goal with
+  | E : (_, ?r) = ?O ?n ?g ?a ?kw ?h |- exists hh, (let (_, y) := ?O ?n ?g ?a ?kw hh in y) = ?r =>
+      exists h; rewrite <- E; reflexivity
   | |- _ /\ _ => split
   | |- exists _, _ => eexists
   | |- _ -> _ => let H := fresh "H" in intro H; try discriminate H
   end;
-  first [ reflexivity | exact I
-        | match goal with E : (_, ?r) = ?O ?n ?g ?a ?kw ?h |- snd (?O ?n ?g ?a ?kw _) = ?r => rewrite <- E; reflexivity end ].
+  first [ reflexivity | exact I ].
 
 Ltac leaf :=
   first [ exfalso; cbn [dget] in *; congruence
-        | split; [ leaf_value | leaf_restore ] ].
+        | unfold post_both; split; [ leaf_value | leaf_restore ] ].
